@@ -178,6 +178,40 @@ def tabeam (fs : Bool) (nrho : Nat) (drho : Rat) (nr : Nat) (dr : Rat) (els : Li
 def tabeamTab (fs : Bool) (els : List El) (pairs : List PairDecl) (cut : Rat) (nr : Nat) (cutrho : Rat) (nrho : Nat) : TabeamFile :=
   tabeam fs nrho (tabStep cutrho nrho) nr (tabStep cut nr) els pairs
 
+/-! ### DYNAMO funcfl (`writeFuncFL`) -/
+
+structure FuncflFile where
+  z : Int
+  mass : Rat
+  a0 : Rat
+  lat : String
+  nrho : Nat
+  drho : Rat
+  nr : Nat
+  dr : Rat
+  /-- `cutoff = dr * (nr - 1)` -/
+  cutoff : Rat
+  /-- records of (at most) five values; each of the three blocks starts on a new record -/
+  embed : List (List Slot)
+  /-- effective charge `sqrt(phi(r) * r / 27.2 / 0.529)`, recorded as the slot of `phi` it was computed from -/
+  charge : List (List Slot)
+  dens : List (List Slot)
+deriving DecidableEq, Repr
+
+/-- `_writeValueBlock`: five values per record, a shorter last record -/
+def rowsOf5 : List Slot → List (List Slot)
+  | a :: b :: c :: d :: e :: rest => [a, b, c, d, e] :: rowsOf5 rest
+  | [] => []
+  | l => [l]
+
+/-- `writeFuncFL(nrho, drho, nr, dr, [eampot], [pairpot])` -/
+def funcfl (nrho : Nat) (drho : Rat) (nr : Nat) (dr : Rat) (e : El) (pairFid : Fid) : FuncflFile :=
+  { z := e.z, mass := e.mass, a0 := e.a0, lat := e.lat, nrho := nrho, drho := drho, nr := nr, dr := dr,
+    cutoff := dr * ((nr : Rat) - 1),
+    embed := rowsOf5 (sampled e.embed nrho drho),
+    charge := rowsOf5 (pairSlots true pairFid nr dr),      -- phi(r)*r under the square root: the r = 0 value is the literal 0
+    dens := rowsOf5 (sampled e.dens nr dr) }
+
 /-! ### Excel workbooks (cell grids) -/
 
 structure Sheet where
